@@ -518,9 +518,10 @@ func (f *SexpFloat) SexpString(ps *PrintState) string {
 		return strconv.FormatFloat(f.Val, 'e', -1, SexpFloatSize)
 	}
 	// 'f' prints an integral value without any mark of being a float. That
-	// is fine while it fits an int64 (it reads back as the equal integer),
-	// beyond that the digits would be read as an out-of-range integer.
-	if (f.Val >= 9.223372036854775807e18 || f.Val <= -9.223372036854775807e18) && !math.IsInf(f.Val, 0) {
+	// is fine below 2^53 (it reads back as the equal integer). Beyond that the
+	// shortest digits that identify the float no longer spell the same
+	// integer (2^55 prints as ...970), and past int64 they are out of range.
+	if (f.Val >= 9007199254740992 || f.Val <= -9007199254740992) && !math.IsInf(f.Val, 0) {
 		return strconv.FormatFloat(f.Val, 'e', -1, SexpFloatSize)
 	}
 	return strconv.FormatFloat(f.Val, 'f', -1, SexpFloatSize)
